@@ -111,6 +111,12 @@ def judge_token_level(ctx, rg, ref, names, is_red, parser, lexer, s, w, out, cas
             problems.append(('lexer-error-offset', {'expected': fail}))
         elif (exc.get('line'), exc.get('column')) != R.line_col(w, fail):
             problems.append(('lexer-error-line/column', {'expected': R.line_col(w, fail)}))
+        elif parser == 'earley' and K == n and isinstance(exc.get('allowed'), list):
+            # "under Earley with the basic lexer it contains all of them": also the keywords that live inside a regexp terminal
+            legal = {names.get(t) for t in via.next_terms(n)} - {None}
+            ctx.count('allowed-contains-legal:earley-basic-lexer-error')
+            if not legal <= set(exc['allowed']):
+                problems.append(('allowed-misses-a-terminal-that-can-come-next', {'legal': sorted(legal), 'allowed': exc['allowed']}))
     elif exp_idx < n:
         kind = 'parser-error'
         tok = toks[exp_idx]
@@ -425,6 +431,11 @@ CORPUS = [
     ('empty-language-tail', {'rules': [gen.rule('start', [gen.alt([gen.LIT('a'), ['r', 'u']]), gen.alt([gen.LIT('b')])]), gen.rule('u', [gen.alt([gen.LIT('c'), ['r', 'u']])])],
                              'terms': [], 'ignore': [], 'start': ['start'], 'alphabet': list('abc')},
      ['a', 'ac', 'acc', 'bb', 'c']),
+    # keywords that a regexp terminal also matches: what the lexer reports as allowed must still name them
+    ('keyword-inside-regexp', {'rules': [gen.rule('start', [gen.alt([['t', 'IF'], ['t', 'NAME'], ['t', 'THEN']])])],
+                               'terms': [gen.term('IF', ['s', 'if', ''], ex=['if']), gen.term('THEN', ['s', 'then', ''], ex=['then']), gen.term('NAME', ['x', '[a-z]+', ''], ex=['x']),
+                                         gen.term('WS', ['x', ' +', ''], ex=[' '])], 'ignore': ['WS'], 'start': ['start'], 'alphabet': list('ifthenx $')},
+     ['$', 'if x $', 'if $', 'if x then $', 'if', 'if x', 'x', 'if if then']),
     # ignorable text inside a token: the scannerless parsers find an %ignore match at an offset where nothing is being
     # scanned, and one that reaches beyond the place where the sentence breaks off
     ('ignorable-text-inside-token', {'rules': [gen.rule('start', [gen.alt([['t', 'Q'], ['t', 'X']]), gen.alt([['t', 'Q'], ['t', 'Q'], ['t', 'B']])])],
